@@ -417,6 +417,14 @@ func FuncDecls(p *packages.Package) map[string]*ast.FuncDecl {
 	return out
 }
 
+// declKeyOf is the FuncDecls key of a function or method object.
+func declKeyOf(fn *types.Func) string {
+	if sig, _ := fn.Type().(*types.Signature); sig != nil && sig.Recv() != nil {
+		return namedName(sig.Recv().Type()) + "." + fn.Name()
+	}
+	return fn.Name()
+}
+
 func funcDeclName(fd *ast.FuncDecl) string {
 	if fd.Recv != nil && len(fd.Recv.List) > 0 {
 		return recvTypeName(fd.Recv.List[0].Type) + "." + fd.Name.Name
